@@ -547,6 +547,93 @@ func runC08(env *core.Env) {
 			}()
 		}
 	}
+	// every numeric function on a FHIR element gives the number it gives on the System value the element denotes
+	{
+		type carrier struct {
+			name string
+			elem func(v string) (any, bool)
+		}
+		atoi := func(v string) (int64, bool) {
+			r, ok := new(big.Int).SetString(v, 10)
+			if !ok || !r.IsInt64() {
+				return 0, false
+			}
+			return r.Int64(), true
+		}
+		carriers := []carrier{
+			{"integer", func(v string) (any, bool) { i, ok := atoi(v); return &dtpb.Integer{Value: int32(i)}, ok && i >= -2147483648 && i <= 2147483647 }},
+			{"positiveInt", func(v string) (any, bool) { i, ok := atoi(v); return &dtpb.PositiveInt{Value: uint32(i)}, ok && i > 0 && i <= 2147483647 }},
+			{"unsignedInt", func(v string) (any, bool) { i, ok := atoi(v); return &dtpb.UnsignedInt{Value: uint32(i)}, ok && i >= 0 && i <= 2147483647 }},
+			{"decimal", func(v string) (any, bool) { return &dtpb.Decimal{Value: v}, true }},
+		}
+		forms := []string{"%x.abs()", "%x.ceiling()", "%x.floor()", "%x.round()", "%x.round(1)", "%x.truncate()", "%x.sqrt()", "%x.exp()", "%x.ln()", "%x.log(10)", "%x.log(2)", "%x.power(2)", "%x.power(0.5)", "2.power(%x)", "10.log(%x)", "-%x", "%x + 1", "%x * %x", "%x / 4", "%x div 3", "%x mod 3", "1 / %x"}
+		for _, v := range []string{"0", "1", "2", "4", "16", "100", "7", "-4", "2147483647", "0.0", "2.25", "6.25", "0.5", "-2.5", "1.0", "16.00", "1e0"} {
+			for _, c := range carriers {
+				el, ok := c.elem(v)
+				if !ok || v == "1e0" {
+					continue
+				}
+				var sys system.Any
+				if _, isDec := el.(*dtpb.Decimal); isDec {
+					d, err := system.ParseDecimal(v)
+					if err != nil {
+						continue
+					}
+					sys = d
+				} else {
+					i, _ := atoi(v)
+					sys = system.Integer(int32(i))
+				}
+				for _, f := range forms {
+					n++
+					if !env.Mine(n) {
+						continue
+					}
+					if f == "2.power(%x)" && strings.HasPrefix(v, "-") {
+						continue // Integer ^ negative Integer is the recorded finding C08/exact-case/2.power(-1)
+					}
+					func() {
+						defer env.In("un", "probe:"+c.name+"("+v+"):"+f, numVal{"0", true}, "lit", 0)()
+						env.Case()
+						env.Cover("function-on-element")
+						ex, cr := fx.Compile(env, f)
+						if ex == nil {
+							env.Violatef("C08/harness-program-rejected", "`%s`: %s", f, cr.Short())
+							return
+						}
+						re := fx.Evaluate(env, ex, nil, evalopts.EnvVariable("x", el))
+						rs := fx.Evaluate(env, ex, nil, evalopts.EnvVariable("x", sys))
+						if re.IsPanic() {
+							env.Violatef(fx.PanicSig("C08", re), "`%s` with %%x = FHIR %s %s => %s", f, c.name, v, re.Short())
+							return
+						}
+						same := re.Kind == rs.Kind && len(re.Items) == len(rs.Items)
+						if same && re.IsValue() {
+							for i := range re.Items {
+								a, oka := model.ParseNum(re.Items[i].T)
+								b, okb := model.ParseNum(rs.Items[i].T)
+								if oka != okb || (oka && a.Cmp(b) != 0) || (!oka && re.Items[i].T != rs.Items[i].T) {
+									same = false
+								}
+							}
+						}
+						// sqrt / exp / ln / log / power are outside the statement (transcendental, computed in float64): only two
+						// values are compared; whether such a function accepts a FHIR decimal element at all, or takes the
+						// Integer or the Decimal route for a FHIR integer, is not decided here
+						if strings.Contains(f, "sqrt") || strings.Contains(f, "exp") || strings.Contains(f, "ln") || strings.Contains(f, "log") || strings.Contains(f, "power") {
+							if !(re.IsValue() && rs.IsValue() && len(re.Items) > 0 && len(rs.Items) > 0) {
+								env.Skip("transcendental-on-element-not-two-values")
+								return
+							}
+						}
+						if !same {
+							env.Violatef("C08/function-on-element/"+c.name+"/"+strings.ReplaceAll(f, "%x", "x"), "`%s` with %%x = FHIR %s %s gives %s; with the System value %s it gives %s", f, c.name, v, trunc(re.Short(), 80), v, trunc(rs.Short(), 80))
+						}
+					}()
+				}
+			}
+		}
+	}
 	// exactly representable transcendental cases and both-sides-rooted operands
 	for _, c := range []struct{ src, want string }{
 		{"4.sqrt()", "2"}, {"16.0.sqrt()", "4"}, {"2.power(10)", "1024"}, {"2.5.power(2)", "6.25"}, {"0.exp()", "1"}, {"1.ln()", "0"}, {"100.log(10)", "2"}, {"8.log(2)", "3"},
